@@ -104,12 +104,14 @@ inline uint64_t hashFam(unsigned fam, uint64_t key) {
 	case 2: return key << 56;
 	case 3: return key;
 	case 4: return key * 11400714819323198485ull;
-	default: return ((key % 2) << 63) + (key / 2 % 4);
+	case 5: return ((key % 2) << 63) + (key / 2 % 4);
+	case 6: return (127ull << 57) + key;	// top seven bits all ones: the short hash of LimP4 / Open2N2 is 127 for every key
+	default: return ((key % 3 == 0 ? 127ull : key % 128) << 57) + key / 3;	// every third key has short hash 127, the others sweep all values
 	}
 }
 inline const char* hashFamName(unsigned fam) {
-	static const char* n[] = { "const", "low4bits", "highbyte", "identity", "multiplicative", "twocluster" };
-	return n[fam < 6 ? fam : 5];
+	static const char* n[] = { "const", "low4bits", "highbyte", "identity", "multiplicative", "twocluster", "top7ones", "top7mixed" };
+	return n[fam < 8 ? fam : 7];
 }
 
 struct HashCtl { unsigned fam = 3; long throwCountdown = -1; bool fired = false; uint64_t calls = 0; };
